@@ -46,7 +46,7 @@ def produce(tier, seed, which):
     pb = 2 if tier == "quick" else 3
     jobs = []
     for i, f in enumerate(files):
-        jobs.append(("pb", exes[0], f, ["--pb", str(pb), "--max-exec", "6000" if tier == "quick" else "60000"], "pb_%d" % i))
+        jobs.append(("pb", exes[0], f, ["--pb", str(pb), "--max-exec", "10000" if tier == "quick" else "60000"], "pb_%d" % i))
     # the same bounded search with every protected-field access a scheduling point, on the scenarios with
     # in-place edits (a reader overlapping a half-done edit of a key array / child count: seed c09d)
     fscs = [s for s in scs if scenarios.fine_grained(s)] if tier == "quick" else scs
